@@ -696,6 +696,17 @@ class Explorer:
                     return want_a
                 if all(t_a is (not want_a) for t_a in truths):
                     return not want_a
+        if (isinstance(e, ast.Call) and self.enter_with and not e.keywords and isinstance(e.func, ast.Attribute)
+                and ((e.func.attr == "from_iterable" and isinstance(e.func.value, (ast.Name, ast.Attribute))
+                      and (getattr(e.func.value, "id", None) == "chain" or getattr(e.func.value, "attr", None) == "chain") and len(e.args) == 1)
+                     or (e.func.attr == "chain" and isinstance(e.func.value, ast.Name) and e.func.value.id == "itertools" and "itertools" not in env))):
+            # `itertools.chain(a, b)` / `chain.from_iterable(xs)` over sequences the path knows: their concatenation
+            parts_c = self.value(e.args[0], env) if e.func.attr == "from_iterable" else [self.value(a_, env) for a_ in e.args]
+            if isinstance(parts_c, (list, tuple)) and all(isinstance(x_, (list, tuple)) and not isinstance(x_, AbstractObject) for x_ in parts_c):
+                return [y_ for x_ in parts_c for y_ in x_]
+            if self.heap:
+                raise AnalysisError(f"partial evaluation of {self.fn.qualname}: the items of `{ast.unparse(e)[:60]}` are not known")
+            return UNKNOWN
         if (isinstance(e, ast.Call) and self.enter_with and isinstance(e.func, ast.Name) and e.func.id == "type" and "type" not in env and not e.keywords
                 and len(e.args) == 1):
             # the class of a plain sample value, as the name of the builtin (what the name `int` itself folds to)
